@@ -446,18 +446,75 @@ def _split_concat(e):
 
 
 def rule_G1(ctx, typer):
-    """taint rule: every fragment that reaches re.compile is the literal
-    translation of the wildcard its branch tests for, or re.escape(<pattern
-    character>); the result is wrapped by a flags-only prefix and an
-    end-of-string anchor and applied with .match"""
+    """taint rule: every fragment that reaches re.compile is the literal translation of the wildcard its branch tests
+    for, or re.escape(<pattern character>); the result is wrapped by a flags-only prefix and an end-of-string anchor
+    and applied with .match.  Driven from the sink: wherever the regex text is built (a translator function or, after
+    a refactoring, the matching method itself), that code is checked."""
+    from .common import resolve_elem, resolve_local
     cls, funcs = resolver_funcs(ctx.p)
-    tr = funcs.get("__translate")
-    ma = funcs.get("__match")
-    if tr is None or ma is None:
-        raise AnalysisError("anchor Resolver.__translate/__match not found")
+    n = 0
+    sinks = []
+    for f in list(cls.funcs()) + [g for g in ctx.p.all_funcs if g.module.relpath == RES and g.cls is None]:
+        for node in walk_own(f.node):
+            if isinstance(node, ast.Call) and norm(node.func) == "re.compile":
+                sinks.append((f, node))
+    if not sinks:
+        raise AnalysisError("anchor: no re.compile call in anytree/resolver.py")
+    for f, node in sinks:
+        if f.module.assigns and any(node is v for v in f.module.assigns.values()):
+            continue
+        n += 1
+        arg = node.args[0] if node.args else None
+        src = resolve_local(f, arg) if arg is not None else None
+        patparams = [q for q in f.posparams if q != f.selfname]
+        if isinstance(src, ast.Call) and len(src.args) == 1 and not src.keywords:
+            res = typer.results.get(f).calls.get(id(src)) if typer.results.get(f) else None
+            tgt = res.target if res is not None and res.kind == "func" and isinstance(res.target, Func) else None
+            a0 = resolve_elem(f, src.args[0])
+            if tgt is not None and isinstance(a0, ast.Name) and a0.id in patparams:
+                ctx.inst("G1", f, node, "re.compile receives %s(<pattern parameter>)" % tgt.qual)
+                tparam = [q for q in tgt.posparams if q != tgt.selfname][0]
+                n += _check_translation(ctx, typer, tgt, tparam, None)
+                continue
+            ctx.viol("G1", f, node, "re.compile receives `%s`, not the sanitising translation of the pattern parameter" % norm(src))
+            continue
+        # built in place (e.g. the translator was inlined): the pattern parameter is the taint source
+        seed = None
+        for q in patparams:
+            if q in ("pat", "pattern"):
+                seed = q
+        if seed is None:
+            # the pattern may arrive as first element of the cache key
+            for nm in walk_own(f.node):
+                if isinstance(nm, ast.Subscript) and isinstance(resolve_elem(f, nm), ast.Name) and resolve_elem(f, nm).id in patparams:
+                    seed = resolve_elem(f, nm).id
+        if seed is None and patparams:
+            seed = patparams[-1]
+        n += _check_translation(ctx, typer, f, seed, arg)
+    # matching is start-anchored
+    for f in cls.funcs():
+        for node in walk_own(f.node):
+            if isinstance(node, ast.Call) and isinstance(node.func, ast.Attribute) and node.func.attr in ("search", "findall", "finditer") \
+                    and not isinstance(node.func.value, ast.Constant):
+                n += 1
+                ctx.viol("G1", f, node, "pattern applied with .%s: not anchored at the start of the name" % node.func.attr)
+            if isinstance(node, ast.Call) and isinstance(node.func, ast.Attribute) and node.func.attr in ("match", "fullmatch"):
+                n += 1
+                ctx.inst("G1", f, node, "start-anchored application (.%s)" % node.func.attr)
+    return n
+
+
+def _check_translation(ctx, typer, tr, patparam, result_expr):
+    """check how ``tr`` builds the regex from its parameter ``patparam``; result_expr None = its return values"""
+    from .common import resolve_elem, resolve_local
     cfg = typer.cfg_of(tr)
-    patparam = tr.posparams[0] if tr.kind == "static" else tr.posparams[1]
     tainted = {patparam}
+    # names holding (an element of a key that holds) the pattern
+    for node in walk_own(tr.node):
+        if isinstance(node, ast.Assign) and len(node.targets) == 1 and isinstance(node.targets[0], ast.Name):
+            r = resolve_elem(tr, node.value)
+            if isinstance(r, ast.Name) and r.id in tainted:
+                tainted.add(node.targets[0].id)
     changed = True
     while changed:
         changed = False
@@ -593,11 +650,17 @@ def rule_G1(ctx, typer):
         else:
             ctx.viol("G1", tr, where, "unrecognised regex fragment `%s`" % norm(e))
 
-    rets = [x for x in walk_own(tr.node) if isinstance(x, ast.Return) and x.value is not None]
+    if result_expr is not None:
+        holder = ast.Return(value=result_expr)
+        ast.copy_location(holder, result_expr)
+        rets = [holder]
+    else:
+        rets = [x for x in walk_own(tr.node) if isinstance(x, ast.Return) and x.value is not None]
     if not rets:
-        raise AnalysisError("Resolver.__translate has no return")
+        raise AnalysisError("%s has no return" % tr.qual)
     for r in rets:
-        parts = _split_concat(r.value)
+        rv = resolve_local(tr, r.value) if isinstance(r.value, ast.Name) and result_expr is not None else r.value
+        parts = _split_concat(rv)
         pre, post, seen_body = "", "", False
         for part in parts:
             if isinstance(part, ast.Constant) and isinstance(part.value, str):
@@ -614,39 +677,7 @@ def rule_G1(ctx, typer):
             ctx.inst("G1", tr, r, "body wrapped by flags-only prefix %r and end-of-string anchor %r" % (pre, post))
         else:
             ctx.viol("G1", tr, r, "translated pattern is not anchored to the whole name: %s" % ok)
-    n = state["n"]
-    # sink: re.compile(<result of __translate(pat)>) and matching with .match
-    compiled = False
-    for node in walk_own(ma.node):
-        if isinstance(node, ast.Call) and norm(node.func) == "re.compile":
-            n += 1
-            compiled = True
-            arg = node.args[0] if node.args else None
-            src = None
-            if isinstance(arg, ast.Name):
-                for a in walk_own(ma.node):
-                    if isinstance(a, ast.Assign) and any(isinstance(t, ast.Name) and t.id == arg.id for t in a.targets):
-                        src = a.value
-            elif arg is not None:
-                src = arg
-            from .common import resolve_elem, resolve_local
-            src = resolve_local(ma, src) if src is not None else src
-            a0 = resolve_elem(ma, src.args[0]) if isinstance(src, ast.Call) and len(src.args) == 1 else None
-            ok = isinstance(src, ast.Call) and norm(src.func).endswith("__translate") and len(src.args) == 1 \
-                and isinstance(a0, ast.Name) and a0.id in ma.posparams
-            if ok:
-                ctx.inst("G1", ma, node, "re.compile receives the sanitised translation of the pattern parameter")
-            else:
-                ctx.viol("G1", ma, node, "re.compile receives `%s`, not the result of the sanitising translator applied to the pattern" % (norm(src) if src is not None else "?"))
-        if isinstance(node, ast.Call) and isinstance(node.func, ast.Attribute) and node.func.attr in ("search", "findall", "finditer"):
-            n += 1
-            ctx.viol("G1", ma, node, "pattern applied with .%s: not anchored at the start of the name" % node.func.attr)
-        if isinstance(node, ast.Call) and isinstance(node.func, ast.Attribute) and node.func.attr in ("match", "fullmatch"):
-            n += 1
-            ctx.inst("G1", ma, node, "start-anchored application (.%s)" % node.func.attr)
-    if not compiled:
-        raise AnalysisError("anchor re.compile call in Resolver.__match not found")
-    return n
+    return state["n"]
 
 
 def _anchored(pre, post):
@@ -725,6 +756,77 @@ def _deps(func, expr, stop=()):
 
 def _is_size_test(c):
     return any(isinstance(x, ast.Call) and isinstance(x.func, ast.Name) and x.func.id == "len" for x in ast.walk(c))
+
+
+def rule_G2_all_caches(ctx, typer):
+    """every shared (class- or module-level) cache of resolver.py is keyed by everything its cached value depends on"""
+    from .common import resolve_local
+    n = 0
+    mod = ctx.p.module(RES)
+    cls, funcs = resolver_funcs(ctx.p)
+    shared = {name for name, v in cls.assigns.items() if isinstance(v, ast.Dict)} | {name for name, v in mod.assigns.items() if isinstance(v, ast.Dict)}
+    for f in list(cls.funcs()) + [g for g in ctx.p.all_funcs if g.module.relpath == RES and g.cls is None]:
+        for node in walk_own(f.node):
+            if isinstance(node, ast.Subscript) and isinstance(node.ctx, ast.Store):
+                base = node.value
+                bname = base.attr if isinstance(base, ast.Attribute) else (base.id if isinstance(base, ast.Name) else None)
+                if bname not in shared:
+                    continue
+                st = _enclosing_assign(f, node)
+                if st is None:
+                    continue
+                n += 1
+                vdeps = _deps(f, st.value)
+                kdeps = _deps(f, node.slice)
+                missing = sorted(vdeps - kdeps)
+                if missing:
+                    ctx.viol("G2", f, st, "shared cache `%s`: the cached value depends on %s but the key only on %s — a later call that "
+                             "differs in %s gets a value computed for another one (results depend on earlier calls)" % (
+                                 bname, sorted(vdeps), sorted(kdeps), ", ".join(missing)),
+                             construct="cache %s key %s misses %s" % (bname, norm(node.slice), ", ".join(missing)))
+                else:
+                    ctx.inst("G2", f, st, "shared cache %s: value inputs %s ⊆ key inputs %s" % (bname, sorted(vdeps), sorted(kdeps)))
+    return n
+
+
+def rule_R7_parts_unmodified(ctx, typer):
+    """the components walked are exactly those produced by the start-up split: between `__start` and the walk the
+    component list is neither rebuilt nor edited (every component is looked up; none is cancelled or skipped)"""
+    cls, funcs = resolver_funcs(ctx.p)
+    n = 0
+    for fname in ("get", "glob"):
+        f = funcs.get(fname)
+        if f is None:
+            raise AnalysisError("anchor Resolver.%s not found" % fname)
+        partsvars = set()
+        for node in walk_own(f.node):
+            if isinstance(node, ast.Assign) and isinstance(node.value, ast.Call) and norm(node.value.func).endswith("__start") \
+                    and isinstance(node.targets[0], ast.Tuple) and len(node.targets[0].elts) == 2 and isinstance(node.targets[0].elts[1], ast.Name):
+                partsvars.add(node.targets[0].elts[1].id)
+        if not partsvars:
+            ctx.viol("R7", f, f.node, "%s does not obtain (node, components) from the start-up split" % fname, construct="Resolver.%s: no __start" % fname)
+            continue
+        pv = next(iter(partsvars))
+        n += 1
+        consumers = []
+        for node in walk_own(f.node):
+            if isinstance(node, ast.For) and isinstance(node.target, ast.Name) and any(
+                    isinstance(c, ast.Call) and norm(c.func).endswith("__get") for c in ast.walk(node)):
+                consumers.append(("loop", node.iter, node))
+            if isinstance(node, ast.Call) and norm(node.func).endswith("__glob") and len(node.args) == 2:
+                consumers.append(("glob", node.args[1], node))
+        ok = bool(consumers) and all(isinstance(e, ast.Name) and e.id == pv for kind, e, node in consumers)
+        edits = [x for x in walk_own(f.node) if (isinstance(x, ast.Call) and isinstance(x.func, ast.Attribute) and isinstance(x.func.value, ast.Name)
+                                                  and x.func.value.id == pv and x.func.attr in T.MUTATING_METHODS)
+                 or (isinstance(x, ast.Assign) and any(isinstance(t, ast.Name) and t.id == pv for t in x.targets) and not norm(x.value.func if isinstance(x.value, ast.Call) else x.value).endswith("__start"))]
+        if ok and not edits:
+            ctx.inst("R7", f, f.node.name, "walks the component list of the start-up split unmodified")
+        else:
+            where = edits[0] if edits else f.node
+            ctx.viol("R7", f, where, "%s does not walk the component list produced by the start-up split as it is (it is rebuilt, filtered "
+                     "or edited first): a component can be cancelled or skipped without being looked up" % fname,
+                     construct="Resolver.%s: components not walked as split" % fname)
+    return n
 
 
 def rule_G2_G3(ctx, typer):
@@ -898,6 +1000,18 @@ def rule_G6_no_extra_pruning(ctx, typer):
     heads = [h for h in cfg.nodes if h.kind == "fornext"]
     if not guards or not heads or not adders:
         raise AnalysisError("anchor: match guard / result accumulation in Resolver.__find not found")
+    match_tests = [t for t in cfg.nodes if t.kind == "test" and isinstance(t.cond, ast.Call) and norm(t.cond.func).endswith("__match")]
+    for li in [x for x in cfg.nodes if x.kind == "loopin"]:
+        hs = [h for h in heads if h.ast is li.ast]
+        if not hs or not any(cfg.dominates(li, t) for t in match_tests):
+            continue
+        n += 1
+        reach = cfg.reach_from(li, avoid=match_tests, labels_excluded=("exc",))
+        if any(h.id in reach for h in hs) or cfg.exit.id in reach:
+            ctx.viol("G6", f, li.ast.target, "a child can be skipped before its name is even matched against the pattern: the result no "
+                     "longer contains exactly the nodes the pattern denotes", construct="__find: child skipped before matching")
+        else:
+            ctx.inst("G6", f, li.ast.target, "every child is matched against the pattern")
     for g in guards:
         n += 1
         reach = cfg.reach_from(g, avoid=adders, labels_excluded=("exc",))
